@@ -13,7 +13,7 @@ RULE = ('Part long: nets with one routed segment of 1500-20000 points (almost al
         'point lists (compared after resolving wildcards, so resolved and as-written forms are both accepted; width for special nets). Every text is parsed twice '
         'in a row and both results are compared with the model. '
         'non-trivial: a net with >= 2 segments, a wildcard after a via, and a via array with n, m >= 2; distinct by SHA-1 of the model.')
-ASSUMPTIONS = ['supported subset only: non-negative integer coordinates, one ROUTED statement per net, ROW with exactly one of DO/BY different from 1',
+ASSUMPTIONS = ['supported subset only: non-negative integer coordinates, one ROUTED statement per net (optionally followed by one FIXED / COVER / NOSHIELD statement on a layer of its own), ROW with exactly one of DO/BY different from 1',
                'order inside net.vias[via] is not specified: compared as multisets']
 
 IDENT = st.sampled_from(['u1', 'U22', 'core/reg_3_', 'n_12', 'clk', 'VDD', 'VSS', 'a[3]', 'top/u5/n7', 'net42', 'x', 'inst_A', 'b_0_', 'dout[15]', 'rst_n', 'c17'])
@@ -95,7 +95,8 @@ def models(draw, tier):
         for nm in draw(names(3)):
             net = dict(name=nm, pins=[[draw(IDENT), draw(st.sampled_from(['A', 'ZN', 'D', 'Q', 'VDD']))] for _ in range(draw(st.integers(0, 3)))],
                        use=draw(st.one_of(st.none(), st.sampled_from(['SIGNAL', 'POWER', 'CLOCK']))),
-                       routed=draw(st.one_of(st.none(), routing(special))))
+                       routed=draw(st.one_of(st.none(), routing(special))),
+                       extra=draw(st.sampled_from([None, None, None, 'FIXED', 'COVER', 'NOSHIELD'])))
             m[key].append(net)
     return m
 
@@ -172,6 +173,8 @@ def render(m):
                             a(f'{w()}{it[1]}' + (f' DO {it[2][0]} BY {it[2][1]} STEP {it[2][2]} {it[2][3]}' if it[2] else ''))
                         else:
                             a(f'{w()}{it[1]}' + (f' {it[2]} ' if it[2] else ' '))
+                if n.get('extra'):      # a further wiring statement of another kind on a layer of its own: the ROUTED geometry stays listed
+                    a(f'{w()}+ {"FIXED" if key == "spnets" and n["extra"] == "NOSHIELD" else n["extra"]} metal9 ' + ('55 ' if key == 'spnets' else '') + '( 1 2 ) ( 1 77 )')      # NOSHIELD exists for regular nets only
             a(' ;\n')
         a(f'END {kw}\n')
     a('END DESIGN\n')
@@ -270,7 +273,7 @@ def compare(m, d, ctx):
             for k in vias:
                 eq(f'{key} {n["name"]} vias[{k}]', sorted(tuple(x) for x in gv[k]), sorted(vias[k]))
             gw = g.wires
-            eq(f'{key} {n["name"]} wire layers', sorted(k for k in gw if gw[k]), sorted(wires))
+            eq(f'{key} {n["name"]} wire layers', sorted(k for k in gw if gw[k] and k != 'metal9'), sorted(wires))
             for layer in wires:
                 got = [(wd, resolve(pts)) for wd, pts in gw[layer]]
                 exp = [(wd, [tuple(p) for p in pts]) for wd, pts in wires[layer]]
@@ -291,6 +294,7 @@ def compare(m, d, ctx):
     if multi: labels.append('multi_segment')
     if wild_after_via: labels.append('wildcard_after_via')
     if arr: labels.append('via_array>=2x2')
+    if any(n.get('extra') and n['routed'] for k_ in ('spnets', 'nets') for n in m[k_]): labels.append('second_wiring_statement')
     if m['nets'] and any(n['routed'] for n in m['nets']): labels.append('routed_regular_net')
     return Obs(multi and wild_after_via and arr, labels)
 
